@@ -3876,7 +3876,7 @@ impl RefFs {
                 let fin = if self.nodes.get(&dst) == Some(&N::D) { format!("{}/{}", dst.trim_end_matches('/'), Self::base(&p)) } else { dst };
                 if Self::under(&fin, &p) { return Ok(false); }
                 if !self.parent_is_dir(&fin) { return Ok(false); }
-                match self.nodes.get(&fin) { Some(N::D) => return Err(()), _ => { self.nodes.remove(&fin); } }
+                match self.nodes.get(&fin) { Some(N::D) | Some(N::L(_)) => return Err(()), _ => { self.nodes.remove(&fin); } }
                 let moved: Vec<(String, N)> = self.nodes.iter().filter(|(k, _)| Self::under(k, &p)).map(|(k, n)| (k.clone(), n.clone())).collect();
                 for (k, n) in moved {
                     self.nodes.remove(&k);
@@ -5165,8 +5165,8 @@ def ref_apply(ex, st, ref, op, paths, data, opts=None):
             return ("err", None)
         fn_ = ref_find(ex, st, ref, final)
         if fn_ is not None:
-            if fn_["kind"] == "d":
-                return ("skip", None)  # replacing a directory: not determined by the documentation
+            if fn_["kind"] in ("d", "l"):
+                return ("skip", None)  # replacing a directory or a link: not determined by the documentation ("replaces destination files")
             ref["nodes"].remove(fn_)
         for n in ref["nodes"]:
             tn = TP.tokenize(ex, st, n["key"])
